@@ -8,6 +8,11 @@ safe expressions against plain Python, and a few unmonitored child processes as 
 Shard mode `reach`: the live objects TatSu binds in the AST (AST/Node -> parseinfo -> cursor -> input ->
 configuration -> semantics ...) are walked along every attribute name the evaluator's checker lets through,
 and every reached object is read, called and iterated by an expression evaluated through a real parse.
+Look-alike names (value transparency): rules bind nested ASTs (r, r.sub) and top-level names whose field names start
+like, end like, contain or are contained in a name a sandbox has reasons to deny (f_name, co_author, tb_1, formatter,
+open_, class_, x__y ...); safe expressions read them with attribute syntax, by subscript and as plain names, bare, inside
+calls of pure builtins / methods / operators and inside `{...}` interpolation, through the four routes and through
+is_eval_safe/safe_eval as a client calls them; the value is the one plain Python gives and is_eval_safe says True.
 DESIGN.md section 3/C17.
 """
 from __future__ import annotations
@@ -49,6 +54,21 @@ RULE = ('cases = (expression text, extra AST bindings, route); routes: eval = ta
         'reached object is read, every callable called with 11 argument lists around an existing scratch file and a missing '
         'path (+ lists of its own arity), iterables are measured/sorted/iterated; each such expression arrives as INPUT text '
         'of one model per configuration (const placement, every 8th also as alert) and is judged like any other case. '
+        'shadow-scope = finite: 24 forbidden builtin names bound as AST keys x 10 forms that read the name in a nested '
+        'scope (element / condition of a generator expression, lambda body handed to sorted/max/min as key=), through '
+        'the four routes; '
+        'look = look-alike names: vocabulary = for every introspection attribute of generator/coroutine/async-generator/frame/'
+        'traceback/code objects of the running interpreter, format/format_map/mro, the dunders used above, every lower-case '
+        'builtin name and 5 exception names: the name with a suffix (_, s, 2, __, __y, _name), a prefix (_, my_), both, '
+        'capitalised, chopped, same prefix before the first underscore (f_name, co_author, tb_1), plus ordinary names '
+        '(not a denied name itself, not a dict attribute, not starting with __); each name is bound to a str, int or list '
+        'in a nested AST r (rule rec), in r.sub and at the top level of the current AST, with different values; complete: '
+        'every name x (r.X bare, in one use of its type, in one template; r[\'X\'], X, r.sub.X, r[\'sub\'].X, r.sub[\'X\'] '
+        'in one of the three) through is_eval_safe + safe_eval called directly with the AST the real parser builds (no '
+        'monitors) and every name once through a real parse with attribute syntax (const | alert | input | const-text '
+        'by hash of seed and name, under the monitors); random: name x access x (bare | 11 templates | uses of the value), '
+        'a third with a second look-alike field read its own way, through the four routes; oracle = the transparency '
+        'oracle of T (plain Python over the same names, harness-side dict-with-attributes as r) and is_eval_safe is True. '
         'non-trivial = the evaluator executed at least one code object for the expression under the monitors; distinct by '
         '(route, expression, bindings)')
 ASSUMPTIONS = [
@@ -65,6 +85,12 @@ ASSUMPTIONS = [
     'bytes.decode(name)) is not an import performed by the expression: counted (expr_audit_unjudged:import:codec-lookup), not judged',
     'a non-ParseException exception escaping model.parse from a constant (TypeError from ast.literal_eval of `{[1]: 2}`) is '
     'counted, not judged; SystemExit/KeyboardInterrupt escaping is judged (exits the process)',
+    'look-alike names: a field name that is not itself an introspection attribute, format/format_map, a dunder (or any name '
+    'starting with __) or a builtin name is an ordinary name bound in the AST, whatever it starts or ends with; reading it '
+    '(attribute, subscript, plain name) and using the value with pure builtins, methods of str/int/list, operators and list '
+    'comprehensions over bound names is a safe expression; names that are attributes of dict (stored by the AST under '
+    'another key) are left out; expressions with braces of their own (f-strings) are not part of this class on the '
+    'parser routes (a constant is an interpolation template first)',
     'string results that constant() would evaluate again are compared only when plain Python says the re-evaluation is inert '
     '(not a literal, and either not an expression or one with an unbound name)',
     'reach: a callable reached as an attribute of an AST value (method, static method, class kept in a field) is a method of '
@@ -90,6 +116,16 @@ FLOORS = {
               'child_control_ok': 1, 'kind:attr': 1000, 'kind:compose': 2000, 'kind:strbuild': 800, 'kind:shadow': 600,
               'kind:fmt': 400, 'nfkc_variants': 1200, 'nfkc_builtins_swept': len(X.BUILTIN_NAMES),
               'nfkc_dunder_without_ascii_pair': 200, 'nfkc_touching_evaluations': 900, 'nfkc_transparency_compared': 500,
+              'scope_shadow_cases': len(X.SCOPE_SHADOWED) * len(X.SCOPE_FORMS), 'kind:shadow-scope': 900,
+              'look_names_swept': len(X.LOOK_VOCAB), 'look_direct_checked': 8 * len(X.LOOK_VOCAB),
+              'look_direct_safe_true': 8 * len(X.LOOK_VOCAB), 'look_direct_value_equal': 8 * len(X.LOOK_VOCAB),
+              'look_direct_access:attr': 3 * len(X.LOOK_VOCAB), 'look_direct_access:sub': len(X.LOOK_VOCAB),
+              'look_direct_access:top': len(X.LOOK_VOCAB), 'look_direct_access:nested-attr': len(X.LOOK_VOCAB),
+              'look_direct_use:template': 2 * len(X.LOOK_VOCAB), 'look_cases': 450, 'look_transparency_compared': 2600,
+              'look_compared:eval': 400, 'look_compared:const': 600, 'look_compared:alert': 600, 'look_compared:input': 400,
+              'look_compared:const-text': 200, 'look_compared_access:attr': 1000, 'look_compared_access:nested-attr': 400,
+              'look_compared_access:sub-attr': 400, 'look_compared_access:sub': 60, 'look_compared_access:top': 60,
+              'look_compared_use:template': 600, 'look_compared_use:call': 500, 'look_is_eval_safe_true': 400,
               # reach: what a tree that binds nothing but plain values would still give (the floors must not need the defect)
               'reach_configurations': 14, 'reach_objects': 1400, 'reach_types': 110, 'reach_paths_generated': 12000,
               'reach_mechanisms': 800, 'reach_evaluations': 800, 'reach_callables_called': 70, 'reach_calls': 800,
@@ -102,6 +138,13 @@ FLOORS = {
                  'child_runs': 10, 'child_control_ok': 1, 'nfkc_variants': 24000,
                  'nfkc_builtins_swept': len(X.BUILTIN_NAMES), 'nfkc_dunder_without_ascii_pair': 5000,
                  'nfkc_touching_evaluations': 22000, 'nfkc_transparency_compared': 12000,
+                 'scope_shadow_cases': len(X.SCOPE_SHADOWED) * len(X.SCOPE_FORMS), 'kind:shadow-scope': 900,
+                 'look_names_swept': len(X.LOOK_VOCAB), 'look_direct_checked': 8 * len(X.LOOK_VOCAB),
+                 'look_direct_safe_true': 8 * len(X.LOOK_VOCAB), 'look_direct_value_equal': 8 * len(X.LOOK_VOCAB),
+                 'look_direct_access:attr': 3 * len(X.LOOK_VOCAB), 'look_cases': 23900, 'look_transparency_compared': 60000,
+                 'look_compared:eval': 18000, 'look_compared:const': 18000, 'look_compared:alert': 18000,
+                 'look_compared:input': 10000, 'look_compared_access:attr': 25000, 'look_compared_use:template': 15000,
+                 'look_is_eval_safe_true': 20000,
                  'reach_configurations': 18, 'reach_objects': 1800, 'reach_types': 140, 'reach_paths_generated': 40000,
                  'reach_mechanisms': 2500, 'reach_evaluations': 60000, 'reach_callables_called': 1000, 'reach_calls': 50000,
                  'reach_calls_executed': 45000, 'route:reach-const': 30000, 'route:reach-alert': 30000,
@@ -113,6 +156,7 @@ SHARD_TIMEOUT = {'quick': 900, 'thorough': 5400}
 N_RANDOM = {'quick': 2400, 'thorough': 120000}
 N_T = {'quick': 1600, 'thorough': 40000}
 N_NFKC = {'quick': 1800, 'thorough': 45000}
+N_LOOK = {'quick': 450, 'thorough': 24000}
 N_SHARDS = {'quick': 15, 'thorough': 47}
 TEXT_EVERY = 16
 ROUTES = ('eval', 'const', 'alert', 'input')
@@ -120,13 +164,14 @@ BASE_NAMES = ('a', 'n', 't', 'p')
 WATCHDOG_S = 2          # CPU seconds of this process (ITIMER_VIRTUAL); a normal evaluation takes ~5 ms
 WATCHDOG_REPEAT_S = 0.25
 INPUT_NAME = 'src_'
+REC_NAME = 'r'
 N_REACH_SHARDS = {'quick': 4, 'thorough': 16}
 
 
 def plan(tier, seed):
     k = N_SHARDS[tier]
     shards = [{'mode': 'mix', 'seed': seed, 'shard': i, 'of': k, 'n_random': N_RANDOM[tier] // k,
-               'n_t': N_T[tier] // k, 'n_nfkc': N_NFKC[tier] // k} for i in range(k)]
+               'n_t': N_T[tier] // k, 'n_nfkc': N_NFKC[tier] // k, 'n_look': N_LOOK[tier] // k} for i in range(k)]
     shards.append({'mode': 'child', 'seed': seed})
     r = N_REACH_SHARDS[tier]
     shards += [{'mode': 'reach', 'seed': seed, 'shard': i, 'of': r, 'tier': tier} for i in range(r)]
@@ -156,6 +201,11 @@ def grammar(case, route):
     else:
         items = [L.Named('a', L.Pat('[a-z]+')), L.Named('n', L.Const('3')), L.Named('t', L.Const('[1, 2, 3]')),
                  L.Named('p', L.Call('probe'))]
+    rules = []
+    if case.get('rec'):
+        # r: a nested AST whose fields (and those of r.sub) are named by the case
+        items.append(L.Named(REC_NAME, L.Call('rec')))
+        rules = rec_rules('rec', case['rec'])
     for k, v in bind.items():
         items.append(L.Named(k, L.Const(v)))
     if route == 'input':
@@ -164,28 +214,72 @@ def grammar(case, route):
         items += [L.Alert(case['expr'], 2)]
     else:
         items += [L.Over(L.Const(case['expr']))]
-    return L.Grammar([L.Rule('start', L.Seq(tuple(items))), L.Rule('probe', L.Void())])
+    return L.Grammar([L.Rule('start', L.Seq(tuple(items))), L.Rule('probe', L.Void())] + rules)
+
+
+def rec_rules(name, fields):
+    """rec = f_name:`'Ada'` year:`1815` sub:rec_sub ;  rec_sub = ... ;  (a dict value is a nested rule)"""
+    items, rules = [], []
+    for k, v in fields.items():
+        if isinstance(v, dict):
+            items.append(L.Named(k, L.Call(f'{name}_{k}')))
+            rules += rec_rules(f'{name}_{k}', v)
+        else:
+            items.append(L.Named(k, L.Const(v)))
+    return [L.Rule(name, L.Seq(tuple(items)))] + rules
 
 
 def grammar_source(case, route):
     """the same grammar as text, with the expression between triple back-quotes"""
     g = grammar(case, route)
-    body = g.rules[0].body
-    parts = []
-    for it in body.items:
-        if isinstance(it, L.Over) and isinstance(it.e, L.Const):
-            parts.append('@:```' + it.e.text + '```')
-        elif isinstance(it, L.Alert):
-            parts.append('^' * it.level + '```' + it.text + '```')
-        elif isinstance(it, L.Named) and isinstance(it.e, L.Const):
-            parts.append(f'{it.n}:```{it.e.text}```')
-        else:
-            parts.append(L.txt_item(it))
-    return 'start = ' + ' '.join(parts) + ' ;\nprobe = () ;\n'
+    out = []
+    for rule in g.rules:
+        if isinstance(rule.body, L.Void):
+            out.append(f'{rule.name} = () ;\n')
+            continue
+        parts = []
+        for it in rule.body.items:
+            if isinstance(it, L.Over) and isinstance(it.e, L.Const):
+                parts.append('@:```' + it.e.text + '```')
+            elif isinstance(it, L.Alert):
+                parts.append('^' * it.level + '```' + it.text + '```')
+            elif isinstance(it, L.Named) and isinstance(it.e, L.Const):
+                parts.append(f'{it.n}:```{it.e.text}```')
+            else:
+                parts.append(L.txt_item(it))
+        out.append(f'{rule.name} = ' + ' '.join(parts) + ' ;\n')
+    return ''.join(out)
+
+
+class Rec(dict):
+    """harness-side reference value of a nested AST: the fields read as attributes and by subscript"""
+
+    def __getattr__(self, name):
+        try:
+            return self[name]
+        except KeyError:
+            raise AttributeError(name) from None
+
+
+def rec_value(fields, cls=Rec):
+    return cls({k: rec_value(v, cls) if isinstance(v, dict) else pyast.literal_eval(v) for k, v in fields.items()})
+
+
+AST_CLASS = []
+
+
+def real_ast(fields):
+    """the same record as the value the real parser binds (its AST class, taken from a parse)"""
+    if not AST_CLASS:
+        import tatsu
+        AST_CLASS.append(type(tatsu.compile('start = x:() y:() ;').parse('')))
+    return rec_value(fields, AST_CLASS[0])
 
 
 def user_names(case, route, probe):
     u = {'a': 'xyz', 'n': 3, 't': [1, 2, 3], 'p': probe}
+    if case.get('rec'):
+        u[REC_NAME] = rec_value(case['rec'])
     for k, v in (case.get('bind') or {}).items():
         try:
             u[k] = pyast.literal_eval(v)
@@ -324,6 +418,8 @@ def run_route(case, route, textroute=False):
             expr = 'f' + repr(expr)
         ctx = dict(safe_builtins())
         ctx.update(user)
+        if case.get('rec'):
+            ctx[REC_NAME] = real_ast(case['rec'])     # what a parse binds; ``user`` keeps the plain reference value
         o1, safe = observe(lambda: is_eval_safe(expr, dict(ctx)))
         if [c for c in o1.roots]:
             extra.append(('check-executes', 'is_eval_safe executed the expression'))
@@ -369,13 +465,18 @@ def check_route(acc, case, route, textroute=False, run=None):
     if obs is None:
         acc.count('unbuildable:' + rname)
         return None
-    wit = {'case': {k: case[k] for k in ('expr', 'kind', 'bind', 'T', 'ascii', 'nfkc') if k in case}
+    wit = {'case': {k: case[k] for k in ('expr', 'kind', 'bind', 'T', 'ascii', 'nfkc', 'rec', 'look') if k in case}
                    | ({'ctx': 1} if case.get('ctx') else {}),
            'route': route, 'textroute': textroute}
     where = f'[{rname}] {case["expr"]!r}' + (f' with AST keys {case["bind"]}' if case.get('bind') else '')
     if case.get('nfkc'):
         where += f' (NFKC spelling of {case["ascii"]!r})'
         acc.count('nfkc_evaluations')
+    look = case.get('look')
+    if look:
+        where += f' with {REC_NAME} = the nested AST {case["rec"]}'
+        acc.count('look_evaluations')
+        acc.count('look_route:' + rname)
 
     # ---- what the monitors saw
     nroots = len(obs.roots)
@@ -454,6 +555,13 @@ def check_route(acc, case, route, textroute=False, run=None):
                 acc.count('transparency_compared')
                 if case.get('nfkc'):
                     acc.count('nfkc_transparency_compared')
+                if look:
+                    acc.count('look_transparency_compared')
+                    acc.count('look_compared:' + rname)
+                    acc.count('look_compared_access:' + look['access'])
+                    acc.count('look_compared_use:' + look['wrap'])
+                    if route == 'eval' and 'is_eval_safe:True' in obs.ambient:
+                        acc.count('look_is_eval_safe_true')
                 ok = got[0] == 'ok' and same_value(got[1], want[1], user['p'])
                 if not ok and want[0] == 'text-or-fail' and got[0] == 'fail':
                     ok = True
@@ -466,7 +574,8 @@ def check_route(acc, case, route, textroute=False, run=None):
                         sig = 'transparency:safe-expression-rejected'
                     else:
                         sig = 'transparency:value'
-                    acc.violation(sig, f'{where}: plain Python gives {want[1]!r}, the evaluator gave {got[:2]!r:.200}', wit)
+                    said = ' (is_eval_safe said False)' if route == 'eval' and 'is_eval_safe:False' in obs.ambient else ''
+                    acc.violation(sig, f'{where}: plain Python gives {want[1]!r}, the evaluator gave {got[:2]!r:.200}{said}', wit)
         else:
             acc.count('transparency_compared_raising')
             if got[0] == 'ok' and not (route != 'eval' and isinstance(got[1], str)):
@@ -505,6 +614,116 @@ def check_case(acc, case, index):
             acc.count('is_eval_safe:' + ('rejected' if case['_rejected'] else 'accepted-or-error'))
     if index % TEXT_EVERY == 0 and '```' not in case['expr'] and not case['expr'].endswith('`'):
         check_route(acc, case, 'const', textroute=True)
+
+
+# ------------------------------------------------------------------------------ look-alike field names
+LOOK_SWEEP_ACCESS = ('attr', 'attr', 'nested-attr', 'sub-attr')
+LOOK_SWEEP_ROUTES = (('const', False), ('alert', False), ('input', False), ('const', True))
+
+
+def look_collides(*names):
+    """the class of the real AST has an attribute of that name (an attribute read finds it before the field): such a
+    field is not part of the class; counted, which leaves the floors unreached"""
+    real_ast({})
+    return any(hasattr(AST_CLASS[0], nm) for nm in names)
+
+
+def look_sweep_case(name, seed):
+    """the case of the per-name sweep: the field read with attribute syntax, the value used bare / in a use of its type /
+    in an interpolation template; (route, textroute) rotates with the seed"""
+    h = h64('C17', 'look-sweep', seed, name)
+    route, text = LOOK_SWEEP_ROUTES[h % len(LOOK_SWEEP_ROUTES)]
+    access = LOOK_SWEEP_ACCESS[(h >> 8) % len(LOOK_SWEEP_ACCESS)]
+    k = (h >> 16) % 10
+    if k < 2:
+        wrap = ''
+    elif k < 6 and route != 'input':
+        wrap = X.LOOK_TEMPLATES[(h >> 24) % len(X.LOOK_TEMPLATES)]
+    else:
+        ws = X.look_wraps(name)
+        wrap = ws[(h >> 24) % len(ws)]
+    return X.look_case(name, access, wrap), route, text
+
+
+def look_direct(acc, name, access, wrap):
+    """the helper called as a client calls it (no monitors: the expression is safe by construction): is_eval_safe says
+    True and safe_eval gives the value plain Python gives over the same names"""
+    from tatsu.util.safeeval import is_eval_safe, safe_builtins, safe_eval
+    case = X.look_case(name, access, wrap)
+    user = user_names(case, 'eval', S.Probe())
+    exp = expected_value(case, user)
+    expr = 'f' + repr(case['expr']) if case['kind'] == 'interp' else case['expr']
+    ctx = dict(safe_builtins())
+    ctx.update(user)
+    ctx[REC_NAME] = real_ast(case['rec'])
+    acc.evaluations += 1
+    acc.count('look_direct_checked')
+    acc.count('look_direct_access:' + access)
+    acc.count('look_direct_use:' + case['look']['wrap'])
+    wit = {'look_direct': {'name': name, 'access': access, 'wrap': wrap}}
+    where = f'[eval-direct] {expr!r} with {name} bound in the nested AST {REC_NAME}, in {REC_NAME}.sub and at the top level'
+    try:
+        safe = is_eval_safe(expr, dict(ctx))
+    except Exception as e:  # noqa: BLE001 - the class is the observation
+        safe = f'raised {type(e).__name__}'
+    try:
+        got = ('ok', safe_eval(expr, ctx))
+    except Exception as e:  # noqa: BLE001
+        got = ('exc', type(e).__name__, str(e)[:160])
+    if exp[0] != 'ok':
+        acc.count('look_direct_raising')
+        if got[0] == 'ok':
+            acc.violation('transparency:value', f'{where}: plain Python raises {exp[1]}, safe_eval gave {got[1]!r:.120}', wit)
+        return
+    if safe is True:
+        acc.count('look_direct_safe_true')
+    else:
+        acc.violation('transparency:safe-expression-rejected',
+                      f'{where}: is_eval_safe gave {safe!r} for an expression over AST names, literals and pure builtins '
+                      f'(plain Python gives {exp[1]!r}, safe_eval gave {got[:2]!r:.160})', wit)
+        return
+    if got[0] == 'ok' and same_value(got[1], exp[1], user['p']):
+        acc.count('look_direct_value_equal')
+    else:
+        sig = 'transparency:safe-expression-rejected' if got[0] != 'ok' and got[1] == 'SecurityError' else 'transparency:value'
+        acc.violation(sig, f'{where}: plain Python gives {exp[1]!r}, safe_eval gave {got[:2]!r:.200}', wit)
+
+
+def run_look(desc, acc):
+    """look-alike names: (1) every name of the vocabulary x every access form (bare, one use, one template) through the
+    helper; (2) every name once through a real parse with attribute syntax; (3) random cases through the four routes"""
+    shard, of, seed = desc['shard'], desc['of'], desc['seed']
+    for i, v in enumerate(X.LOOK_VOCAB):
+        if i % of != shard:
+            continue
+        if look_collides(v['name']):
+            acc.count('look_name_is_attribute_of_the_ast_class')
+            acc.note(f'look: {v["name"]} is an attribute of the AST class: not swept')
+            continue
+        for access, wrap in X.look_direct_forms(v['name']):
+            look_direct(acc, v['name'], access, wrap)
+        case, route, text = look_sweep_case(v['name'], seed)
+        if text and ('```' in case['expr'] or case['expr'].endswith('`')):
+            text = False
+        check_route(acc, case, route, textroute=text)
+        acc.count('look_names_swept')
+        acc.count('look_like:' + v['how'].split(':')[0])
+    # forbidden builtin names shadowed by AST keys, read in nested scopes (generator expressions, lambda bodies)
+    for i, case in enumerate(X.scope_cases()):
+        if i % of == shard:
+            check_case(acc, case, i // of)
+            acc.count('scope_shadow_cases')
+    for i in range(desc.get('n_look', 0)):
+        rng = random.Random(h64('C17', seed, 'look', shard, i))
+        case = X.look_random_case(rng)
+        if look_collides(*case['bind']):
+            acc.count('look_name_is_attribute_of_the_ast_class')
+            continue
+        check_case(acc, case, i)
+        acc.count('look_cases')
+        if i == 3:
+            acc.sample({'kind': 'look', 'expr': case['expr'], 'rec': case['rec'], 'bind': case['bind'],
+                        'expected': repr(expected_value(case, user_names(case, 'const', S.Probe())))[:120]})
 
 
 # ------------------------------------------------------------------------------ shards
@@ -595,6 +814,7 @@ def run_mix(desc, acc):
         if i == 1:
             acc.sample({'kind': case['kind'], 'expr': case['expr'], 'expected': repr(expected_value(
                 case, user_names(case, 'const', S.Probe())))[:120]})
+    run_look(desc, acc)
 
 
 # ------------------------------------------------------------------------------ attribute-reachability sweep
@@ -1172,6 +1392,10 @@ def replay(w, acc):
                 CHILD_CASES = keep
             return
         warm_up()
+        if 'look_direct' in w:
+            d = w['look_direct']
+            look_direct(acc, d['name'], d['access'], d['wrap'])
+            return
         if 'reach' in w:
             r = w['reach']
             S.ST.unblocked = REACH_UNJUDGED_EVENTS
@@ -1207,7 +1431,9 @@ MANIFEST = {
                   'quantifier ranges over all expression strings; an attribute-reachability sweep walks the live objects the '
                   'parser binds in the AST (parseinfo, cursor, input, configuration, semantics, typed nodes) for 14 '
                   'configurations of input kind x parseinfo x result kind and reads/calls/iterates everything reached, '
-                  'signatures = effect + chain of type.attribute names',
+                  'signatures = effect + chain of type.attribute names; value transparency also over nested ASTs whose field '
+                  'names look like denied names (prefix/suffix/substring of introspection attributes, format, dunders, '
+                  'builtin names): the vocabulary is complete through the helper and through one parse route per name',
     'level_note': 'trusted: CPython audit events and sys.monitoring, the classification of builtins in vt/monitors/sandbox.py; '
                   'effects are blocked after being recorded, so values of violating expressions are not meaningful; a few '
                   'unmonitored child processes confirm the effects end to end; held = no forbidden callable/name/attribute/effect in '
